@@ -18,7 +18,19 @@ def logu(rnd, lo, hi):
     return float(f"{math.exp(rnd.uniform(math.log(lo), math.log(hi))):.6g}")
 
 
-def gen_cell(rnd: random.Random, triclinic: float = 0.4, lo=5.0, hi=9.0):
+def gen_cell(rnd: random.Random, triclinic: float = 0.4, lo=5.0, hi=9.0, lefthanded: float = 0.1):
+    cell = _gen_cell_rh(rnd, triclinic, lo, hi)
+    if rnd.random() < lefthanded:
+        # a left-handed triad (negative determinant) is a legal ASE cell with a positive volume
+        if rnd.random() < 0.5:
+            cell[0], cell[1] = cell[1], cell[0]
+        else:
+            k = rnd.randrange(3)
+            cell[k] = [-x for x in cell[k]]
+    return cell
+
+
+def _gen_cell_rh(rnd: random.Random, triclinic: float, lo, hi):
     a, b, c = (rfloat(rnd, lo, hi, 3) for _ in range(3))
     if rnd.random() < triclinic:
         s = lambda: rfloat(rnd, -0.25, 0.25, 3)  # noqa: E731
@@ -138,7 +150,9 @@ def gen_pot(rnd: random.Random, cell, scale: str = "moderate", pair=True, field=
     if field:
         pot["field"] = [rfloat(rnd, -0.5, 0.5, 3) for _ in range(3)]
     if cellterm:
-        vol = abs(cell[0][0] * cell[1][1] * cell[2][2])
+        vol = abs(cell[0][0] * (cell[1][1] * cell[2][2] - cell[1][2] * cell[2][1])
+                  - cell[0][1] * (cell[1][0] * cell[2][2] - cell[1][2] * cell[2][0])
+                  + cell[0][2] * (cell[1][0] * cell[2][1] - cell[1][1] * cell[2][0]))
         pot["kv"] = logu(rnd, 1e-4, 1e-1)
         pot["V0"] = round(vol * rnd.uniform(0.8, 1.2), 3)
         pot["ks"] = logu(rnd, 1e-3, 1e-1) if rnd.random() < 0.5 else 0.0
